@@ -25,7 +25,8 @@ PROP = "C18"
 MODULE = "Proofs.C18"
 T = "Teakra."
 THEOREMS = [T + t for t in [
-    "C18.readWord_inbounds", "C18.writeWord_inbounds", "C18.programRead_inbounds", "C18.programRead_oob_iff",
+    "C18.readWord_inbounds", "C18.writeWord_inbounds", "C18.readWord_never_oob", "C18.writeWord_never_oob",
+    "C18.programRead_inbounds", "C18.programRead_oob_iff",
     "C18.programWrite_oob_iff", "C18.data_access_never_oob", "C18.fetch_inrange_iff", "C18.fetch_oob_witness_prpage",
     "C18.fetch_oob_witness_pc", "C18.activateChannel_lt", "C18.window_index_inbounds", "C18.upstream_window_index_witness",
     "C18.mmio_offset_inbounds", "C18.dma_dsp_index_inbounds", "C18.upstream_dma_dsp_index_witness"]]
